@@ -20,7 +20,7 @@ CATS = ["f", "g", "h"]
 def used_vars(formula):
     """variable names (from our fixed vocabulary) that occur in the formula text"""
     names = set(re.findall(r"[A-Za-z_][A-Za-z0-9_.]*", formula))
-    return [v for v in ["y", "x", "z", "f", "g", "h", "k", "w", "n", "s"] if v in names]
+    return [v for v in ["y", "x", "z", "f", "g", "h", "k", "w", "n", "s", "w12", "q1"] if v in names]
 
 
 def cat_rows(cats, order, reps=1):
